@@ -187,6 +187,14 @@ impl CodeCache {
         code_slice
       };
       let (next_op, length, _cycles) = decode(code_slice);
+      // An instruction that begins in ROM bank 0 and is cut by the boundary takes
+      // its operand bytes from the switchable bank. It may not ride along in a
+      // block that is cached without a bank: it begins a block of its own, and
+      // blocks that begin at 0x3FFE/0x3FFF are cached with the bank (see
+      // CachedBlocks::get_region).
+      if index != ip && index < 0x4000 && index + length > 0x4000 {
+        break;
+      }
       index += length;
       block_ended = next_op.is_block_end();
       let translated = self.exec_memory.get_memory_area_mut();
